@@ -171,12 +171,23 @@ def tlc(module, cfg, workers=None, env=None, timeout=1100, simulate=None, depth=
     if 'Temporal properties were violated' in r.out and not r.violations:
         r.violations.append('temporal')
     r.finished = 'Model checking completed' in r.out or 'Finished in' in r.out or 'Finished computing' in r.out
+    acc = None
     for line in r.out.splitlines():
         s = line.strip()
-        if s.startswith('<<"') and s.endswith('>>'):
-            t = parse_tla(s)
+        if acc is None:
+            if s.startswith('<<"'):
+                acc = s
+            else:
+                continue
+        else:
+            acc += ' ' + s          # TLC wraps long values over several lines
+        if acc.count('<<') <= acc.count('>>') and acc.count('{') <= acc.count('}') and acc.count('[') <= acc.count(']'):
+            t = parse_tla(acc)
             if t is not None:
                 r.prints.append(t)
+            acc = None
+        elif len(acc) > 200000:
+            acc = None
     if r.rc not in (0, 12, 13) or 'Parsing or semantic analysis failed' in r.out or 'TLC threw an unexpected exception' in r.out or 'Error: ' in r.out and not r.violations and r.rc != 0:
         r.errors.append('tlc rc=%s' % r.rc)
     return r
